@@ -5,8 +5,15 @@
    X:<line lengths>" (checks/c19.py compares impl == model on the full answer, uses the verdict, and re-judges the
    implementation's answer against the same declaration list when the two differ). *)
 
-let fixed_sel =
-  (match Sys.getenv_opt "VERIF_C19_FIXED" with Some "1" -> true | Some "0" -> false | _ -> deployed_fixed)
+(* which variant of the outline code the model follows: the deployed one; VERIF_C19_FIXES = six characters 0/1 in
+   the order of Symbols.fixes (range fnspan hull alldecl undecl ownfile) selects another one (used to check an older
+   or partially repaired copy of the code) *)
+let fixed_sel : fixes =
+  (match Sys.getenv_opt "VERIF_C19_FIXES" with
+   | Some v when String.length v = 6 ->
+     let b i = v.[i] = '1' in
+     { fx_range = b 0; fx_fnspan = b 1; fx_hull = b 2; fx_alldecl = b 3; fx_undecl = b 4; fx_ownfile = b 5 }
+   | _ -> deployed)
 
 let zi (x : z) = dec_of_z x
 let range_s (l : loc) =
@@ -59,7 +66,7 @@ let cls_name = function ClsForeign -> "foreign_member" | ClsRewrite -> "child_ra
   | ClsAssignedFunc -> "assigned_function_range" | ClsMemberLost -> "member_lost" | ClsMemberUndeclared -> "member_of_undeclared" | ClsUnexplained -> "unexplained"
 let decl_s (d : decl) = Printf.sprintf "%s:%s:%s" (kind_c d.d_kind) (hex_of_bytes d.d_key) (String.concat ";" (List.map rawloc_s d.d_locs))
 
-let run_case (fx : bool) (line : string) : string =
+let run_case (fx : fixes) (line : string) : string =
   let c = parse_srv_case line in
   let files = Array.of_list c.files in
   let res = Array.map (fun (_, content) -> analyse_file content) files in
@@ -78,8 +85,9 @@ let run_case (fx : bool) (line : string) : string =
     match merge_ws_log orig with
     | None -> "SKIP-NONDET\t-\t-"
     | Some (merged, mlog) ->
-    let merged = Array.of_list merged in
-    let g i = { (g0 i) with st = merged.(i) } in
+    let g i = (match outline_state fx orig merged (nat_of_int i) with
+               | Some st -> { (g0 i) with st = st }
+               | None -> assert false) in
     let too_big = ref false in
     let verdicts = ref [] and classes = ref [] and dcols = ref [] in
     let add_cls k = if not (List.mem k !classes) then classes := k :: !classes in
@@ -96,12 +104,12 @@ let run_case (fx : bool) (line : string) : string =
           | _, Some k ->
             verdicts := Printf.sprintf "%s:%d:%s:%s" (match v with Missing -> "missing" | _ -> "badrange") i (decl_s d) (cls_name k) :: !verdicts;
             add_cls (cls_name k)
-          | _, None -> ()) (judge_all lens gi.st gi.decls (foreign_globals orig mlog (nat_of_int i)) fx);
+          | _, None -> ()) (judge_all lens gi.st gi.decls (if fx.fx_ownfile then [] else foreign_globals orig mlog (nat_of_int i)) fx);
         dcols := Printf.sprintf "D%d=%s X%d=%s" i (String.concat "," (List.map decl_s gi.decls)) i
                    (String.concat "," (List.map zi lens)) :: !dcols;
         Some ("docsym=" ^ Buffer.contents b)
       | StWssym q ->
-        let per = List.mapi (fun i _ -> (i, file_wsyms (g i).st)) (Array.to_list files) in
+        let per = List.mapi (fun i _ -> (i, file_wsyms fx (g i).st)) (Array.to_list files) in
         let all = List.concat (List.map (fun (i, ws) ->
           let (rel, _) = files.(i) in
           List.map (fun (w : wsym) ->
@@ -114,7 +122,7 @@ let run_case (fx : bool) (line : string) : string =
             let (fi, ds_i) = List.nth per_decls (int_of_nat f) in
             let base = (match String.index_opt (string_of_bytes d.d_key) '.' with Some p -> String.sub (string_of_bytes d.d_key) 0 p | None -> string_of_bytes d.d_key) in
             let declared = List.exists (fun (d0 : decl) -> d0.d_kind <> DFunc && string_of_bytes d0.d_key = base) ds_i in
-            let k = (match d.d_kind with DFunc -> if declared then "member_lost" else "member_of_undeclared" | _ -> "unexplained") in
+            let k = (match d.d_kind with DFunc -> if declared || fx.fx_undecl then "member_lost" else "member_of_undeclared" | _ -> "unexplained") in
             verdicts := Printf.sprintf "wsmissing:%d:%s:%s" (int_of_nat f) (decl_s d) k :: !verdicts;
             add_cls k
           end) (ws_judge q per_decls ans);
@@ -137,15 +145,18 @@ let run_big (line : string) : string =
   let res = Array.map (fun (_, content) -> analyse_file content) files in
   if Array.exists (fun r -> match r with Good _ -> false | _ -> true) res then "SKIP-NOT-GOOD\t-\t-" else
   let g0 i = match res.(i) with Good s -> s | _ -> assert false in
-  match merge_ws_log (List.init (Array.length res) (fun i -> (g0 i).st)) with
+  let orig = List.init (Array.length res) (fun i -> (g0 i).st) in
+  match merge_ws_log orig with
   | None -> "SKIP-NONDET\t-\t-"
   | Some (merged, _) ->
-  let merged = Array.of_list merged in
-  let g i = { (g0 i) with st = merged.(i) } in
+  let fx = fixed_sel in
+  let g i = (match outline_state fx orig merged (nat_of_int i) with
+             | Some st -> { (g0 i) with st = st }
+             | None -> assert false) in
   let all = List.concat (List.mapi (fun i (rel, _) ->
     List.map (fun (w : wsym) ->
       Printf.sprintf "%s/%d@%s@%s" (hex_of_bytes w.w_name) (if w.w_fn then 12 else 13) rel (range_s w.w_loc))
-      (file_wsyms (g i).st)) (Array.to_list files)) in
+      (file_wsyms fx (g i).st)) (Array.to_list files)) in
   let all = List.sort compare all in
   let total = List.length all in
   (* what the property demands: per query, per file declaring a global / function of that name, the candidate ranges *)
